@@ -526,3 +526,199 @@ theorem sweep_entities_decided (os ents : List Obj) (hown : ∀ o ∈ ents, isFo
       · exact r.2.2.2.1 o' ho'
 
 end StepModel.GenFiles.Pass
+
+namespace StepModel.GenFiles.Pass
+open StepModel.Generated.CxxPass
+
+/-! ## one schema visited by `print_schemas_separate` after its suppliers -/
+
+theorem unsetObjs_id (p : PSchema) (m : Marks) (h : NoCant m) : unsetObjs p m = m := by
+  funext n
+  unfold unsetObjs
+  have : (m n == Mark.cantprocess) = false := by
+    cases hm : m n <;> first | rfl | exact absurd hm (h n)
+  simp [this]
+
+/-- the structural hypotheses on a schema of the file model: own objects are not foreign and have pairwise different
+    names, and every select the schema knows is one of its types or a foreign stub -/
+structure WellFormed (p : PSchema) : Prop where
+  nodup : (p.types.map (·.name)).Nodup
+  ownT : ∀ o ∈ p.types, isForeign p.os o.name = false
+  ownE : ∀ o ∈ p.ents, isForeign p.os o.name = false
+  sel : ∀ i o, lookup p.os i = some o → o.isSelect = true → o.foreign = true ∨ ∃ t ∈ p.types, t.name = i
+
+/-- `checkTypes` + `checkEnts` for a schema whose foreign objects are all PROCESSED, under the stall-detecting loop:
+    the loop finishes, nothing is CANTPROCESS, the schema is not set back, and every own object is decided -/
+theorem passResult_ready (p : PSchema) (m : Marks) (wf : WellFormed p) (hc : NoCant m) (hf : FDone p.os m) :
+    ∃ s, passResult .untilSettledOrStalled .inSchemaOrProcessed p m = some s ∧ NoCant s.marks ∧ s.schemaUnprocessed = false ∧
+      (∀ o ∈ p.own, s.marks o.name ≠ .notknown) ∧ (∀ k, m k ≠ .notknown → s.marks k = m k) := by
+  have hr : Ready p.os p.types { marks := m, schemaUnprocessed := false } := ⟨wf.nodup, wf.ownT, ⟨hc, rfl⟩, hf⟩
+  have hex := run_stalled_terminates p.os p.types _ hr
+  have inv := run_inv .untilSettledOrStalled (Or.inr rfl) p.os p.types _ hr (p.types.length + 2)
+  have hset := inv.2.2 hex
+  have hss : SelSettled p.os (runFrom .untilSettledOrStalled .inSchemaOrProcessed p.os p.types { marks := m, schemaUnprocessed := false } (p.types.length + 2)).st.marks := by
+    intro i o hl hs
+    rcases wf.sel i o hl hs with hfo | ⟨t, ht, hn⟩
+    · rw [inv.2.1 i (by rw [isForeign_of_lookup p.os i o hl]; exact hfo)]; decide
+    · rw [← hn]; exact hset t ht
+  have r := sweep_entities_decided p.os p.ents wf.ownE _ inv.1 inv.2.1 hss
+  refine ⟨_, by unfold passResult; simp only [hex, if_true], r.1.1, r.1.2, ?_, ?_⟩
+  · intro o ho
+    rcases List.mem_append.mp ho with ht | he
+    · rw [r.2.2.2.2 o.name (hset o ht)]; exact hset o ht
+    · exact r.2.2.2.1 o he
+  · intro k hk
+    -- marks that were decided before the visit are not touched by the type loop …
+    have keep : ∀ j, (runFrom .untilSettledOrStalled .inSchemaOrProcessed p.os p.types { marks := m, schemaUnprocessed := false } j).st.marks k = m k := by
+      intro j
+      induction j with
+      | zero => rfl
+      | succ j ih =>
+        have erun : runFrom .untilSettledOrStalled .inSchemaOrProcessed p.os p.types { marks := m, schemaUnprocessed := false } (j + 1) =
+            iterate .untilSettledOrStalled .inSchemaOrProcessed p.os p.types (runFrom .untilSettledOrStalled .inSchemaOrProcessed p.os p.types { marks := m, schemaUnprocessed := false } j) (j + 1) := rfl
+        rw [erun]
+        have invj := run_inv .untilSettledOrStalled (Or.inr rfl) p.os p.types _ hr j
+        cases he : (runFrom .untilSettledOrStalled .inSchemaOrProcessed p.os p.types { marks := m, schemaUnprocessed := false } j).exited with
+        | true => rw [iterate_exited _ _ _ _ _ _ he]; exact ih
+        | false =>
+          -- a sweep changes a mark only from NOTKNOWN (to CANPROCESS or back to NOTKNOWN); `k` is decided
+          have hsw : ∀ (order : List Obj) (s : St), Good s → FDone p.os s.marks → (∀ o ∈ order, isForeign p.os o.name = false) →
+              s.marks k ≠ .notknown → (sweep .inSchemaOrProcessed p.os order s).marks k = s.marks k := by
+            intro order
+            induction order with
+            | nil => intro s _ _ _ _; rfl
+            | cons o rest ihr =>
+              intro s hg hfd hown hks
+              have hpo := hown o List.mem_cons_self
+              have v := visit_rel p.os s o hg hfd hpo
+              have hvk : (visit .inSchemaOrProcessed p.os s o).marks k = s.marks k := by
+                by_cases e : k = o.name
+                · rw [e] at hks ⊢; rw [v.2.2.1 hks]
+                · exact v.2.1 k e
+              have := ihr (visit .inSchemaOrProcessed p.os s o) v.1 (visit_fdone p.os s o hg hfd hpo)
+                (fun o' ho' => hown o' (List.mem_cons_of_mem _ ho')) (by rw [hvk]; exact hks)
+              simp only [sweep, List.foldl_cons] at this ⊢
+              rw [this, hvk]
+          have hk' : (resetUnknown (runFrom .untilSettledOrStalled .inSchemaOrProcessed p.os p.types { marks := m, schemaUnprocessed := false } j).st).marks k ≠ .notknown := by
+            show (runFrom .untilSettledOrStalled .inSchemaOrProcessed p.os p.types { marks := m, schemaUnprocessed := false } j).st.marks k ≠ .notknown
+            rw [ih]; exact hk
+          have hs1 := hsw p.types (resetUnknown (runFrom .untilSettledOrStalled .inSchemaOrProcessed p.os p.types { marks := m, schemaUnprocessed := false } j).st)
+            (resetUnknown_good _ invj.1) invj.2.1 wf.ownT hk'
+          by_cases hcc : 0 < (sweep .inSchemaOrProcessed p.os p.types (resetUnknown (runFrom .untilSettledOrStalled .inSchemaOrProcessed p.os p.types { marks := m, schemaUnprocessed := false } j).st)).unknown ∧
+              (sweep .inSchemaOrProcessed p.os p.types (resetUnknown (runFrom .untilSettledOrStalled .inSchemaOrProcessed p.os p.types { marks := m, schemaUnprocessed := false } j).st)).unknown = (runFrom .untilSettledOrStalled .inSchemaOrProcessed p.os p.types { marks := m, schemaUnprocessed := false } j).last
+          · rw [iterate_stall _ _ _ _ _ he hcc]
+            simp only [markRemaining]
+            have hne : (sweep .inSchemaOrProcessed p.os p.types (resetUnknown (runFrom .untilSettledOrStalled .inSchemaOrProcessed p.os p.types { marks := m, schemaUnprocessed := false } j).st)).marks k ≠ .notknown := by
+              rw [hs1]; exact hk'
+            rw [if_neg (fun hx => hne hx.1), hs1]
+            exact ih
+          · rw [iterate_nostall _ _ _ _ _ he hcc]
+            simp only
+            rw [hs1]; exact ih
+    -- … nor by `checkEnts`
+    rw [r.2.2.2.2 k (by rw [keep]; exact hk), keep]
+
+end StepModel.GenFiles.Pass
+
+namespace StepModel.GenFiles.Pass
+open StepModel.Generated.CxxPass
+
+/-- state of `print_schemas_separate` in which every `SCHEMAprint` call so far had suffix 0 and the schemas in `done`
+    are completely PROCESSED -/
+structure Clean (done : List PSchema) (fs : FileSt) : Prop where
+  nocant : NoCant fs.marks
+  nothung : fs.hung = false
+  counters : ∀ n, fs.counter n = 0
+  processed : ∀ q ∈ done, ∀ o ∈ q.own, fs.marks o.name = .processed
+  finished : ∀ q ∈ done, fs.unprocessed q.name = false
+  suffix0 : ∀ x ∈ fs.printed, x.2 = 0
+
+/-- one schema visited after all its suppliers: it is printed (if it has anything to print) with suffix 0, completely, and
+    the state stays clean -/
+theorem visitSchema_clean (done : List PSchema) (fs : FileSt) (p : PSchema) (hcl : Clean done fs) (wf : WellFormed p)
+    (hun : fs.unprocessed p.name = true)
+    (hdep : ∀ n, isForeign p.os n = true → ∃ q ∈ done, ∃ o ∈ q.own, o.name = n)
+    (hnames : ∀ q ∈ done, q.name ≠ p.name) :
+    Clean (done ++ [p]) (visitSchema .untilSettledOrStalled .inSchemaOrProcessed fs p) ∧
+    (∀ n, n ≠ p.name → (visitSchema .untilSettledOrStalled .inSchemaOrProcessed fs p).unprocessed n = fs.unprocessed n) := by
+  have hfd : FDone p.os fs.marks := by
+    intro n hn
+    obtain ⟨q, hq, o, ho, e⟩ := hdep n hn
+    rw [← e]; exact hcl.processed q hq o ho
+  obtain ⟨s, hs, hnc, hsu, hdec, hkeep⟩ := passResult_ready p fs.marks wf hcl.nocant hfd
+  have ev : visitSchema .untilSettledOrStalled .inSchemaOrProcessed fs p = finishVisit fs p s := by
+    unfold visitSchema
+    rw [if_neg (by rw [hun, hcl.nothung]; decide), unsetObjs_id p fs.marks hcl.nocant, hs]
+  rw [ev]
+  have hsuf : (if s.schemaUnprocessed || fs.counter p.name > 0 then fs.counter p.name + 1 else 0) = 0 := by
+    rw [hsu, hcl.counters p.name]; simp
+  refine ⟨⟨?_, ?_, ?_, ?_, ?_, ?_⟩, ?_⟩
+  · intro k
+    simp only [finishVisit]
+    split
+    · decide
+    · exact hnc k
+  · simp [finishVisit, hcl.nothung]
+  · intro n
+    simp only [finishVisit, hsuf]
+    rw [if_neg (by intro h; exact absurd h.2.2 (by decide))]
+    exact hcl.counters n
+  · intro q hq o ho
+    simp only [finishVisit]
+    rcases List.mem_append.mp hq with hq | hq
+    · have hp := hcl.processed q hq o ho
+      have : s.marks o.name = .processed := by rw [hkeep o.name (by rw [hp]; decide), hp]
+      rw [this]; simp
+    · have hqp : q = p := by simpa using hq
+      subst hqp
+      have h1 := hdec o ho
+      have h2 := hnc o.name
+      cases hm : s.marks o.name with
+      | notknown => exact absurd hm h1
+      | cantprocess => exact absurd hm h2
+      | processed => simp
+      | canprocess =>
+        have hany : (q.own.any fun o => s.marks o.name == .canprocess) = true :=
+          List.any_eq_true.mpr ⟨o, ho, by simp [hm]⟩
+        have hown : (q.own.any fun o' => o'.name == o.name) = true := List.any_eq_true.mpr ⟨o, ho, by simp⟩
+        simp [hany, hown]
+  · intro q hq
+    simp only [finishVisit]
+    rcases List.mem_append.mp hq with hq | hq
+    · rw [if_neg (hnames q hq)]; exact hcl.finished q hq
+    · have hqp : q = p := by simpa using hq
+      subst hqp
+      simp [hsu]
+  · intro x hx
+    simp only [finishVisit, hsuf] at hx
+    split at hx
+    · rcases List.mem_append.mp hx with hx | hx
+      · exact hcl.suffix0 x hx
+      · have : x = (p.name, 0) := by simpa using hx
+        rw [this]
+    · exact hcl.suffix0 x hx
+  · intro n hn
+    simp only [finishVisit]
+    rw [if_neg hn]
+
+/-- the schemas of a file in an order in which every schema comes after all the schemas it takes objects from -/
+def InDependencyOrder : List PSchema → List PSchema → Prop
+  | _, [] => True
+  | done, p :: rest =>
+    WellFormed p ∧ (∀ n, isForeign p.os n = true → ∃ q ∈ done, ∃ o ∈ q.own, o.name = n) ∧
+    (∀ q ∈ done, q.name ≠ p.name) ∧ (∀ q ∈ rest, q.name ≠ p.name) ∧ InDependencyOrder (done ++ [p]) rest
+
+theorem round_clean (done todo : List PSchema) (fs : FileSt) (hcl : Clean done fs) (hord : InDependencyOrder done todo)
+    (hun : ∀ q ∈ todo, fs.unprocessed q.name = true) :
+    Clean (done ++ todo) (todo.foldl (visitSchema .untilSettledOrStalled .inSchemaOrProcessed) fs) := by
+  induction todo generalizing done fs with
+  | nil => simpa using hcl
+  | cons p rest ih =>
+    obtain ⟨wf, hdep, hn1, hn2, hrest⟩ := hord
+    have st := visitSchema_clean done fs p hcl wf (hun p List.mem_cons_self) hdep hn1
+    simp only [List.foldl_cons]
+    have := ih (done ++ [p]) _ st.1 hrest (fun q hq => by
+      rw [st.2 q.name (hn2 q hq)]; exact hun q (List.mem_cons_of_mem _ hq))
+    simpa using this
+
+end StepModel.GenFiles.Pass
